@@ -27,7 +27,20 @@ var (
 	gImp  = importer.ForCompiler(gFset, "source", nil)
 )
 
+var pkgCache = map[string]*pkgInfo{}
+
 func loadPkg(dir string) (*pkgInfo, error) {
+	if p, ok := pkgCache[dir]; ok {
+		return p, nil
+	}
+	p, err := loadPkgUncached(dir)
+	if err == nil {
+		pkgCache[dir] = p
+	}
+	return p, err
+}
+
+func loadPkgUncached(dir string) (*pkgInfo, error) {
 	fset := gFset
 	pkgs, err := parser.ParseDir(fset, dir, func(fi os.FileInfo) bool {
 		n := fi.Name()
